@@ -317,7 +317,9 @@ fn check_labels<G: Cv>(fx: &Value, progs: &[&Program], o: &Opts, start: std::tim
         let (_, mev) = main_events(&ev);
         let mut n = 0;
         match run_monitor(&steps, &mev) {
-            Err(e) => bad.push((key("schedule structure"), "protocol order".into(), e)),
+            // a run that does not have the protocol's structure is C06's business; labels cannot be
+            // attributed to steps then
+            Err(_) => {}
             Ok(m) => {
                 for (i, (step, label)) in m.labels.iter().enumerate() {
                     n += 1;
